@@ -388,6 +388,88 @@ Section Proofs.
   Qed.
 End Proofs.
 
+(* ---------- the fast-sync path ---------- *)
+
+Lemma dedup_in l : forall x, In x (dedup l) <-> In x l.
+Proof.
+  induction l as [|y r IH]; intro x; cbn; [tauto|].
+  destruct (existsb (Nat.eqb y) r) eqn:E.
+  - rewrite IH. split; [auto|]. intros [->|H]; [|exact H].
+    apply existsb_exists in E. destruct E as [z [Hz Hy]]. apply Nat.eqb_eq in Hy. subst. exact Hz.
+  - cbn. rewrite IH. tauto.
+Qed.
+
+Lemma dedup_nodup l : NoDup (dedup l).
+Proof.
+  induction l as [|y r IH]; cbn; [constructor|].
+  destruct (existsb (Nat.eqb y) r) eqn:E; [exact IH|].
+  constructor; [|exact IH]. rewrite dedup_in. intro Hin.
+  assert (existsb (Nat.eqb y) r = true); [|congruence].
+  apply existsb_exists. exists y. split; [exact Hin|apply Nat.eqb_refl].
+Qed.
+
+Lemma two_thirds_lt n c : Nat.ltb (n * 2 / 3) c = true <-> 3 * c > 2 * n.
+Proof.
+  rewrite Nat.ltb_lt.
+  pose proof (Nat.div_mod (n * 2) 3 ltac:(lia)) as D.
+  pose proof (Nat.mod_upper_bound (n * 2) 3 ltac:(lia)) as U.
+  split; intro H; lia.
+Qed.
+
+Section FastSyncProofs.
+  Context {sigT addrT : Type}.
+  Variable addr_eqb : addrT -> addrT -> bool.
+  Variable recover : vote_msg -> sigT -> option addrT.
+
+  Lemma indices_spec mk vals items idxs :
+    indices addr_eqb recover mk vals items = Some idxs <->
+    Forall2 (fun it i => signer_index addr_eqb recover mk vals it = Some i) items idxs.
+  Proof.
+    revert idxs. induction items as [|it r IH]; intro idxs; cbn.
+    - split.
+      + intro H; inversion H; constructor.
+      + intro H; inversion H; reflexivity.
+    - destruct (signer_index addr_eqb recover mk vals it) as [i|] eqn:Hs.
+      + destruct (indices addr_eqb recover mk vals r) as [l|] eqn:Hl.
+        * split.
+          -- intro H; inversion H; subst. constructor; [exact Hs|]. apply IH. reflexivity.
+          -- intro H; inversion H as [|? j ? l' Hj HF]; subst.
+             apply IH in HF. inversion HF; subst. congruence.
+        * split; [discriminate|]. intro H; inversion H as [|? j ? l' Hj HF]; subst.
+          apply IH in HF. discriminate.
+      + split; [discriminate|]. intro H; inversion H; subst. congruence.
+  Qed.
+
+  (* processBlock consumes the block iff every item is a validator's precommit
+     signature for this block (position list idxs), the DISTINCT signer
+     positions are more than two thirds, and the part-set id is the block's *)
+  Theorem fs_accept_iff height round bid ps real vals items :
+    fs_accept addr_eqb recover height round bid ps real vals items = true <->
+    exists idxs distinct,
+      Forall2 (fun it i => signer_index addr_eqb recover (item_msg height round bid ps) vals it = Some i)
+              items idxs /\
+      NoDup distinct /\ (forall i, In i distinct <-> In i idxs) /\
+      3 * length distinct > 2 * length vals /\
+      ps_id_matches ps real = true.
+  Proof.
+    unfold fs_accept.
+    destruct (indices addr_eqb recover (item_msg height round bid ps) vals items) as [idxs|] eqn:Hi.
+    - rewrite andb_true_iff, two_thirds_lt. apply indices_spec in Hi. split.
+      + intros [Hq Hp]. exists idxs, (dedup idxs). repeat split; auto.
+        * apply dedup_nodup.
+        * apply dedup_in.
+        * apply dedup_in.
+      + intros [idxs' [ds [HF [Hnd [Hin [Hq Hp]]]]]]. split; [|exact Hp].
+        assert (idxs' = idxs).
+        { clear - HF Hi. revert idxs' HF. induction Hi; intros idxs' HF; inversion HF; subst; auto.
+          f_equal; [congruence|auto]. }
+        subst.
+        assert (length ds <= length (dedup idxs)); [|lia].
+        apply NoDup_incl_length; [exact Hnd|]. intros x Hx. apply dedup_in. apply Hin. exact Hx.
+    - split; [discriminate|]. intros [idxs [_ [HF _]]]. apply indices_spec in HF. congruence.
+  Qed.
+End FastSyncProofs.
+
 (* ---------- the ground-truth instance used by the correspondence run ---------- *)
 
 Lemma gaddr_eqb_eq a b : gaddr_eqb a b = true <-> a = b.
@@ -531,3 +613,18 @@ Proof. vm_compute. repeat split. Qed.
 Theorem prefix_crash_refuted :
   exists items, scan0 gaddr_eqb gt_recover ex_msg (map Key ex_vals) (repeat false 4) items = Crash0.
 Proof. exists [ex_item 3 10; (11%Z, Unrec)]. vm_compute. reflexivity. Qed.
+
+(* the fast-sync path accepts a list in which a signer appears twice, as long as
+   the distinct signers suffice — VerifyBlock refuses the same list *)
+Example ex_fastsync_tolerates_duplicates :
+  let items := [ex_item 3 10; ex_item 2 11; ex_item 0 12; ex_item 2 11] in
+  gt_fs_accept 5 2 ex_bid ex_ps (1%N, [9]%N) ex_vals items = true /\
+  gt_verify_block 5 2 ex_bid ex_ps (Some ex_vals) items = Reject.
+Proof. vm_compute. split; reflexivity. Qed.
+
+Example ex_fastsync_rejects :
+  gt_fs_accept 5 2 ex_bid ex_ps (1%N, [9]%N) ex_vals [ex_item 3 10; ex_item 2 11; ex_item 2 12] = false /\
+  gt_fs_accept 5 2 ex_bid ex_ps (1%N, [9]%N) ex_vals [ex_item 3 10; ex_item 2 11; ex_item 0 12; (13%Z, Junk)] = false /\
+  gt_fs_accept 5 2 ex_bid ex_ps (2%N, [9]%N) ex_vals [ex_item 3 10; ex_item 2 11; ex_item 0 12] = false /\
+  gt_fs_accept 5 2 ex_bid ex_ps (1%N, [9]%N) ex_vals [] = false.
+Proof. vm_compute. repeat split. Qed.
